@@ -304,6 +304,100 @@ fn model_case(w: &[Input]) -> Option<(String, String)> {
     })).ok().flatten()
 }
 
+
+// ------------------------------------------------------------------------------------------------
+// edit histories: the same cell receives several inputs over time (evaluation in between); the final
+// workbook built DIRECTLY (sorted inputs, one evaluate) is the reference.  Dynamic arrays whose extent
+// depends on input cells shrink and grow in each dimension, to 1x1 and to an error; every cell of the
+// used area is compared, so a stale spill cell outside the final extent is seen.
+// ------------------------------------------------------------------------------------------------
+struct Hist { base: Vec<Input>, rounds: Vec<Vec<Input>> }
+
+fn overlay(h: &Hist) -> Vec<Input> {
+    let mut m: BTreeMap<(u32, i32, i32), String> = h.base.iter().map(|x| ((x.0, x.1, x.2), x.3.clone())).collect();
+    for r in &h.rounds { for x in r { m.insert((x.0, x.1, x.2), x.3.clone()); } }
+    m.into_iter().filter(|(_, t)| !t.is_empty()).map(|(k, t)| (k.0, k.1, k.2, t)).collect()
+}
+
+/// dynamic array(s) at B2 (and G9) whose extent is controlled by A12 (rows) and B12 (columns), at most 4x4
+fn gen_history(rng: &mut Rng) -> Hist {
+    let mut base: Vec<Input> = vec![];
+    // a literal block the range-based anchors read: H1:K4
+    for r in 1..=4 { for c in 8..=11 { base.push((0, r, c, format!("{}", (r - 1) * 4 + (c - 7)))); } }
+    let dims = |rng: &mut Rng| -> (i64, i64) { *rng.pick(&[(4, 4), (1, 4), (4, 1), (2, 3), (3, 2), (1, 1), (2, 2), (1, 2), (2, 1), (3, 4)]) };
+    let (r0, c0) = dims(rng);
+    base.push((0, 12, 1, r0.to_string())); base.push((0, 12, 2, c0.to_string()));
+    let anchor = match rng.below(9) {
+        0 | 1 => "=SEQUENCE(A12,B12)", 2 => "=SEQUENCE(1,B12)", 3 => "=SEQUENCE(A12)", 4 => "=SEQUENCE(A12,B12)*10",
+        5 => "=IF(A12>2,H1:H4,H1:H2)*IF(B12>2,H1:K1,H1:I1)", 6 => "=IF(B12>2,H1:K1,H1:I1)", 7 => "=TAKE(H1:K4,A12,B12)", _ => "=FILTER(H1:H4,H1:H4<=A12*4)",
+    };
+    base.push((0, 2, 2, anchor.to_string()));                         // B2, potential extent B2:E5
+    if rng.chance(1, 3) { base.push((0, 9, 7, "=SEQUENCE(B12,A12)".to_string())); } // G9, potential extent G9:J12
+    // scalar readers before and after the arrays in sheet order
+    for (r, c, t) in [(1, 1, "=SUM(B2:E5)"), (1, 2, "=COUNT(B2:E5)"), (1, 3, "=E2"), (1, 4, "=B5&\"|\""), (14, 1, "=SUM(B2:E5)"), (14, 2, "=D2"), (14, 3, "=COUNTA(B2:E2)"), (14, 4, "=C3+1")] {
+        if rng.chance(2, 3) { base.push((0, r, c, t.to_string())); }
+    }
+    let mut rounds: Vec<Vec<Input>> = vec![];
+    let (mut r, mut c) = (r0, c0);
+    for _ in 0..rng.range(1, 4) {
+        let mut e: Vec<Input> = vec![];
+        match rng.below(7) {
+            0 => { r = *rng.pick(&[1, 2, 3, 4]); e.push((0, 12, 1, r.to_string())); }                       // rows only
+            1 => { c = *rng.pick(&[1, 2, 3, 4]); e.push((0, 12, 2, c.to_string())); }                       // columns only
+            2 => { let d = dims(rng); r = d.0; c = d.1; e.push((0, 12, 1, r.to_string())); e.push((0, 12, 2, c.to_string())); } // both
+            3 => { r = 1; c = 1; e.push((0, 12, 1, "1".into())); e.push((0, 12, 2, "1".into())); }          // to 1x1
+            4 => { e.push((0, 12, if rng.chance(1, 2) { 1 } else { 2 }, rng.pick(&["abc", "0", "-1", "#N/A"]).to_string())); } // to an error
+            5 => { c = (c % 4) + 1; e.push((0, 12, 2, c.to_string())); e.push((0, rng.range(1, 4) as i32, rng.range(8, 11) as i32, "50".into())); }
+            _ => { r = (r % 4) + 1; e.push((0, 12, 1, r.to_string())); }
+        }
+        rounds.push(e);
+    }
+    // end on valid sizes most of the time, so that the final workbook has a spill
+    if rng.chance(3, 4) { let d = dims(rng); rounds.push(vec![(0, 12, 1, d.0.to_string()), (0, 12, 2, d.1.to_string())]); }
+    Hist { base, rounds }
+}
+
+fn run_history(h: &Hist, ns: u32, fin: &[Input], mode: &str) -> Result<Dump, String> {
+    let mut m = new_model(ns);
+    let mut base = h.base.clone();
+    base.sort();
+    if mode == "reverse_base" { base.reverse(); }
+    let enter = |m: &mut Model, x: &Input| m.set_user_input(x.0, x.1, x.2, x.3.clone()).map_err(|e| format!("{} <- {:?}: {e}", cell_name(x.0, x.1, x.2), x.3));
+    for x in &base { enter(&mut m, x)?; if mode == "eval_each" { m.evaluate(); } }
+    m.evaluate();
+    for r in &h.rounds {
+        if mode == "reload_between" { m = Model::from_bytes(&m.to_bytes(), "en").map_err(|e| format!("from_bytes: {e}"))?; }
+        for x in r { enter(&mut m, x)?; if mode == "eval_each" { m.evaluate(); } }
+        m.evaluate();
+        if mode == "twice" { m.evaluate(); }
+    }
+    if mode == "reload_end" { m = Model::from_bytes(&m.to_bytes(), "en").map_err(|e| format!("from_bytes: {e}"))?; m.evaluate(); }
+    Ok(dump(&m, fin))
+}
+
+/// (comparisons, failures)
+fn check_history(h: &Hist) -> (u64, Vec<(String, Value, String)>) {
+    let fin = overlay(h);
+    let ns = 2;
+    let all = vec![true; fin.len()];
+    let reference = match run_script(&fin, &all, ns, &reference_script(fin.len())) { Ok(d) => d, Err(_) => return (0, vec![]) };
+    let mut fails = vec![]; let mut n = 0;
+    for mode in ["stepwise", "twice", "eval_each", "reload_between", "reload_end", "reverse_base"] {
+        let Ok(d) = run_history(h, ns, &fin, mode) else { continue };
+        n += 1;
+        if let Some(diff) = first_diff(&reference, &d) {
+            // known shapes are predicates on the FINAL workbook; the generator keeps potential extents disjoint at every step
+            let class = classify_inputs(&fin, ns, "history_dependent");
+            let js = json!({"base": h.base.iter().map(|x| json!([cell_name(x.0, x.1, x.2), x.3])).collect::<Vec<_>>(),
+                            "rounds": h.rounds.iter().map(|r| r.iter().map(|x| json!([cell_name(x.0, x.1, x.2), x.3])).collect::<Vec<_>>()).collect::<Vec<_>>(),
+                            "mode": mode, "reference": "the final workbook entered directly in sorted order, one evaluate()"});
+            fails.push((class, js, format!("[history/{mode}] {diff}")));
+            break;
+        }
+    }
+    (n, fails)
+}
+
 fn main() {
     let a = Args::parse();
     let (seed, thorough, out) = (a.seed, a.thorough, a.out.as_str());
@@ -400,6 +494,32 @@ fn main() {
         wb_index += 1;
     }
     drop(handle);
+    // ---- edit histories with resizing dynamic arrays ---------------------------------------------
+    let mut hist_corpus: Vec<Hist> = vec![
+        Hist { base: inp(&[("A1", "=SEQUENCE(1,A3)"), ("A3", "4")]), rounds: vec![inp(&[("A3", "2")])] },
+        Hist { base: inp(&[("A1", "=SEQUENCE(A6,B6)"), ("A6", "3"), ("B6", "3"), ("F1", "=SUM(A1:C3)")]), rounds: vec![inp(&[("B6", "1")]), inp(&[("A6", "1"), ("B6", "2")])] },
+        Hist { base: inp(&[("B2", "=SEQUENCE(A9,2)"), ("A9", "4"), ("A1", "=C5")]), rounds: vec![inp(&[("A9", "abc")]), inp(&[("A9", "2")])] },
+    ];
+    let nh = if thorough { 1500 } else { 120 };
+    let mut hist_checked = 0u64; let mut hist_failing = 0u64;
+    for i in 0..(hist_corpus.len() + nh) {
+        let h = if i < hist_corpus.len() { std::mem::replace(&mut hist_corpus[i], Hist { base: vec![], rounds: vec![] }) } else { gen_history(&mut rng) };
+        let res = catch_unwind(AssertUnwindSafe(|| check_history(&h)));
+        cs.case(&format!("wb {wb_index} kind edit_history cells {}", h.base.len()), "ok");
+        *dist.entry("edit_history".to_string()).or_insert(0) += 1;
+        wb_index += 1;
+        match res {
+            Err(_) => or.fail("panic", json!({"history": h.base.iter().map(|x| json!([cell_name(x.0, x.1, x.2), x.3])).collect::<Vec<_>>()}), "panic while replaying an edit history".to_string()),
+            Ok((n, fails)) => {
+                or.checked += n; hist_checked += n;
+                if !fails.is_empty() { hist_failing += 1; }
+                for (class, input, detail) in fails { *kind_class.entry(format!("edit_history/{class}")).or_insert(0) += 1; or.fail(&class, input, detail); }
+                if samples.len() < 14 && i % 40 == 3 { samples.push(format!("edit_history: {} then {:?}", h.base.iter().filter(|x| x.3.starts_with('=')).map(|x| format!("{}<-{}", cell_name(x.0, x.1, x.2), x.3)).collect::<Vec<_>>().join(" "), h.rounds)); }
+            }
+        }
+    }
+    stats.insert("edit_history_comparisons", hist_checked);
+    stats.insert("edit_histories_failing", hist_failing);
     stats.insert("elapsed_ms", t0.elapsed().as_millis() as u64);
 
     cs.finish(json!({
